@@ -191,6 +191,23 @@ def unmemoised():
         tu._convolve_two_children, tu.compute_log_S, tn.compute_log_S = saved
 
 
+def densities_inside_window(tree, width=1e-9):
+    """True iff the tree's joint log-densities are determined by its shape and data to floating-point accuracy, i.e. the
+    entries of the root vector they read (last grid entry, row log-sum) lie inside the underflow window of C02 - the
+    band of values a correct floored implementation may report (vlib.refmodel.IntervalMarginal) is narrower than
+    ``width`` there.  Outside it two correct evaluations (incremental / rebuilt, other summation order) may differ."""
+    from scipy.special import logsumexp
+    from vlib.refmodel import IntervalMarginal
+
+    forest, _names = gen.tree_to_forest(tree)
+    if forest.K == 0:
+        return True
+    values = {dp.idx: dp.value for dp in tree.data}
+    _lo, _hi, rlo, rhi = IntervalMarginal(tree.grid_size).run(forest, values)
+    return max(float(np.max(rhi[:, -1] - rlo[:, -1])),
+               float(np.max(logsumexp(rhi, axis=1) - logsumexp(rlo, axis=1)))) <= width
+
+
 def rebuild_equal(tree, data_by_idx, tree_dists, rel=1e-8, extra=0.0, stats=None):
     """C06 oracle: every clone's vectors, the root vector (if it has a child), both joint densities, ==/hash equal
     those of a tree freshly built bottom-up from the abstract form.  Returns max deviation; raises Broken.
